@@ -5,7 +5,7 @@ from __future__ import annotations
 import ast
 
 from ..index import ClassInfo, FuncInfo
-from ..nf import NF, Atom, Undecided, app, atoms_of, lift, nf_equal, single_atom, sym
+from ..nf import NF, Atom, Undecided, app, atoms_of, lift, nf_equal, single_atom, subst, sym
 from ..values import NONE, Cond, ListV, NoneV, Num, ObjV, OpaqueV, StrV, TupleV, valkey
 from .common import atoms_of_cond, both_polarities, K, N, Pdim, call_method, data_sym, guard_outcomes, new_executor, norm_src, raise_loc, returns, run
 
@@ -175,20 +175,35 @@ def check_scorer(ctx, pkg, name, width, inner, mode):
                 ctx.check(all(p.outcome == "raise" and p.exc.exc_name == "ValueError" for p in fired), "C13.b SANITISE-RANGE", f"{name}|{nm}|raises", raise_loc(fired[0], loc), "an out-of-range cut is rejected with ValueError", found=[(p.outcome, p.exc.exc_name if p.exc else "") for p in fired])
         # ------------------------------------------------ spacing / min_size
         # consecutive differences ALONG each row (axis 1) of the cuts array itself
-        dpred = lambda c: c.t[0] == "any" and c.t[1].t[0] == "cmp" and any(a.kind == "app" and a.args[0] == "diff" and a.args[4] in (1, -1) and nf_equal(lift(a.args[1]), cuts_s) for a in atoms_of(c.t[1].t[2]).values())  # noqa: E731
+        # the row differences D of the cuts array, in one canonical spelling: np.diff(cuts, axis=1) is expanded to the
+        # explicit column form cuts[:, 1:] - cuts[:, :-1] (for two columns: cuts[:, 1] - cuts[:, 0])
+        D = _rowdiff(cuts_s, width)
+
+        def expand(nf):
+            mp = {a.key: D for a in atoms_of(nf).values() if a.kind == "app" and a.args[0] == "diff" and a.args[4] in (1, -1) and nf_equal(lift(a.args[1]), cuts_s) and a.args[2] == "none" and a.args[3] == "none"}
+            return subst(nf, mp) if mp else nf
+
+        def mentions_cuts(nf):
+            return any(a.kind == "sym" and a.args[0] == "cuts" for a in atoms_of(nf, deep=True).values())
+
+        def dpred(c):
+            if not (c.t[0] == "any" and c.t[1].t[0] == "cmp"):
+                return False
+            g = expand(c.t[1].t[2])
+            return mentions_cuts(g) and (not mentions_cuts(g - D) or not mentions_cuts(g + D))
         fired = guard_outcomes(paths, dpred)
         ok = bool(fired) and all(p.outcome == "raise" and p.exc.exc_name == "ValueError" for p in fired) and all(any(dpred(c) and v is False for c, v in both_polarities(p.facts)) for p in reach)
         ctx.check(ok, "C13.c CHECK-COMPLETE", f"{name}|spacing", raise_loc(fired[0], loc) if fired else loc, "rows whose consecutive differences are below min_size are rejected with ValueError on every path to the kernel", found=f"{len(fired)} rejecting paths")
         # the bound used is the scorer's own min_size
         ms = _min_size_nf(ex, ctx, pkg, name, inner)
         if ms is not None and fired:
-            want = lambda c: c.t[0] == "any" and c.t[1].t[0] == "cmp" and c.t[1].t[1] == "<0" and nf_equal(c.t[1].t[2], app("diff", cuts_s, "none", "none", 1) - ms)  # noqa: E731
+            want = lambda c: c.t[0] == "any" and c.t[1].t[0] == "cmp" and c.t[1].t[1] == "<0" and nf_equal(expand(c.t[1].t[2]), D - ms)  # noqa: E731
             if name != "LocalAnomalyScore":
                 ctx.check(bool(guard_outcomes(paths, want)), "C13.c CHECK-COMPLETE", f"{name}|min-size-bound", raise_loc(fired[0], loc), "the spacing bound is the scorer's own min_size (strictly increasing and at least min_size apart)", found=[repr(c) for p in fired[:1] for c, v in both_polarities(p.facts) if dpred(c)], expected=f"any(diff(cuts) < {ms!r})")
         if name == "LocalAnomalyScore" and fired:
             # the four cut points need only be strictly increasing: a flank may be a single sample
             # (the pooled surroundings and the inner interval are what min_size bounds)
-            want1 = lambda c: c.t[0] == "any" and c.t[1].t[0] == "cmp" and c.t[1].t[1] == "<0" and nf_equal(c.t[1].t[2], app("diff", cuts_s, "none", "none", 1) - 1)  # noqa: E731
+            want1 = lambda c: c.t[0] == "any" and c.t[1].t[0] == "cmp" and c.t[1].t[1] == "<0" and nf_equal(expand(c.t[1].t[2]), D - 1)  # noqa: E731
             ctx.check(bool(guard_outcomes(paths, want1)), "C13.c CHECK-COMPLETE", f"{name}|flank-bound", raise_loc(fired[0], loc), "consecutive cut points are required to be strictly increasing only (each flank >= 1 sample); min_size bounds the inner interval and the pooled surroundings, not each flank", found=[repr(c) for p in fired[:1] for c, v in both_polarities(p.facts) if dpred(c)], expected="any(diff(cuts) < 1)")
         if name == "LocalAnomalyScore" and ms is not None:
             # exact bounds: the inner interval [a, b) and the pooled surroundings [s, a) + [b, e) each hold at least min_size rows
@@ -254,9 +269,21 @@ def check_scorer(ctx, pkg, name, width, inner, mode):
         ctx.check(wv == width, "C13.c CHECK-COMPLETE", f"{name}|expected-width", loc, f"{name} expects {width} cut entries", found=wv, nontrivial=False)
 
 
+def _rowdiff(cuts_s, width):
+    """cuts[:, 1:] - cuts[:, :-1] as the engine spells it for an array with `width` columns"""
+    cols = [app("col", cuts_s, NF.const(j)) for j in range(width)]
+    if width == 2:
+        return cols[1] - cols[0]
+    return app("colstack", tuple(cols[1:])) - app("colstack", tuple(cols[:-1]))
+
+
 def _flat_or(c, v):
     """(sub-condition, value) pairs implied by a decided disjunction/conjunction"""
     t = c.t
+    if t[0] == "any" and isinstance(t[1], Cond) and t[1].t[0] == "or":
+        # any(A | B) == any(A) or any(B)
+        yield from _flat_or(Cond("or", Cond("any", t[1].t[1]), Cond("any", t[1].t[2])), v)
+        return
     if t[0] == "or" and v is False:
         yield from _flat_or(t[1], False)
         yield from _flat_or(t[2], False)
